@@ -160,6 +160,10 @@ def run(spec, rec):
             if regime == "deep":
                 cds = {p: covdist(rng, "deep")[0] for p in pops}
                 thr = float(rng.choice([1e-2, 1.0]))
+                if ci % 4 == 2:
+                    # "always simulate" at deep coverage: every read-based call is then certain, so with all individuals kept
+                    # the simulated calling is deterministic and must reproduce the model
+                    thr, nsub = 0.0, list(nseq)
             elif regime == "shallow-analytic":
                 cds = {p: covdist(rng, "shallow", maxd=8)[0] for p in pops}
                 thr = 1.0
@@ -176,6 +180,16 @@ def run(spec, rec):
             tags = {"model": name, "regime": regime, "thr": thr, "inbred": F is not None}
             site = "LowPass.make_low_pass_func_GATK_multisample"
             np.random.seed(int(rng.integers(2 ** 31)))
+            if regime == "deep" and thr > 0:
+                # the same samples first wrapped with a shallow coverage distribution and evaluated: what was precomputed for that
+                # coverage must not leak into the deep one (everything but cov_dist is identical)
+                cds_sh = {p: covdist(rng, "shallow", maxd=8)[0] for p in pops}
+                oks, lfs = rec.noraise("lowpass-returns", lambda: LP.make_low_pass_func_GATK_multisample(func, cds_sh, pops, nseq=nseq, nsub=nsub, sim_threshold=thr, Fx=F, nsim=200),
+                                       site=site, tags=dict(tags, regime="shallow-before-deep"))
+                if oks:
+                    oks, msh = rec.noraise("lowpass-returns", lambda: lfs(params, nsub, pts), site=site, tags=dict(tags, regime="shallow-before-deep"))
+                    if oks:
+                        rec.hit("shallow-before-deep")
             ok, lf = rec.noraise("lowpass-returns", lambda: LP.make_low_pass_func_GATK_multisample(func, cds, pops, nseq=nseq, nsub=nsub, sim_threshold=thr, Fx=F, nsim=200),
                                  site=site, tags=tags)
             if not ok:
